@@ -116,7 +116,23 @@ func (c *Ctx) listIDDepth(v ssa.Value, depth int) interface{} {
 		if x.Op != token.MUL {
 			return nil
 		}
+		// a field of a local struct (`pending.trees`)
+		if fa, ok := x.X.(*ssa.FieldAddr); ok {
+			if base, ok := fa.X.(*ssa.Alloc); ok && isSliceType(x.Type()) {
+				return c.fieldCellRoot(fieldCell{base, fa.Field}, depth)
+			}
+			return nil
+		}
 		if cell := c.cellOf(x.X); cell != nil {
+			// a cell that is a snapshot of another list variable, taken when
+			// that variable is complete (`trees := pending.trees`)
+			if st := c.cellStores(cell); len(st) == 1 {
+				if ld, ok := st[0].Val.(*ssa.UnOp); ok && ld.Op == token.MUL {
+					if id := c.listIDDepth(ld, depth+1); id != nil && c.completeAt(id, st[0]) {
+						return id
+					}
+				}
+			}
 			// a cell holding a parameter only: the caller's variable
 			if st := c.cellStores(cell); len(st) == 1 {
 				if p, ok := st[0].Val.(*ssa.Parameter); ok {
@@ -169,6 +185,90 @@ func (c *Ctx) listIDDepth(v ssa.Value, depth int) interface{} {
 	return w
 }
 
+// fieldCell: a slice-typed field of a local struct variable.
+type fieldCell struct {
+	Alloc *ssa.Alloc
+	Field int
+}
+
+// fieldCellRoot follows whole-struct copies: a local struct whose only
+// (live) assignment is a copy of another local struct, made when the field
+// in question is complete, stands for that struct.
+func (c *Ctx) fieldCellRoot(fc fieldCell, depth int) interface{} {
+	if depth > 6 {
+		return fc
+	}
+	refs := fc.Alloc.Referrers()
+	if refs == nil {
+		return fc
+	}
+	var copies []*ssa.Store
+	for _, r := range *refs {
+		switch x := r.(type) {
+		case *ssa.Store:
+			if x.Addr != ssa.Value(fc.Alloc) {
+				return fc // the struct's address escapes into memory
+			}
+			if _, isConst := x.Val.(*ssa.Const); isConst {
+				continue // zeroing (`return T{}, err` spilled before an error exit)
+			}
+			copies = append(copies, x)
+		case *ssa.FieldAddr:
+			if x.Field == fc.Field {
+				for _, rr := range *x.Referrers() {
+					if st, ok := rr.(*ssa.Store); ok && st.Addr == ssa.Value(x) {
+						return fc // the field is assigned directly: it is its own variable
+					}
+				}
+			}
+		}
+	}
+	if len(copies) != 1 {
+		return fc
+	}
+	ld, ok := copies[0].Val.(*ssa.UnOp)
+	if !ok || ld.Op != token.MUL {
+		return fc
+	}
+	src, ok := ld.X.(*ssa.Alloc)
+	if !ok || src == fc.Alloc {
+		return fc
+	}
+	root := c.fieldCellRoot(fieldCell{src, fc.Field}, depth+1)
+	if !c.completeAt(root, copies[0]) {
+		return fc
+	}
+	return root
+}
+
+// completeAt: no assignment of the list variable id can execute after
+// instruction at (so a copy taken there has the variable's final value).
+func (c *Ctx) completeAt(id interface{}, at ssa.Instruction) bool {
+	defs := c.listDefs(id)
+	from := reachable(at.Block())
+	for _, d := range defs {
+		if d.Parent() != at.Parent() {
+			return false
+		}
+		if d.Block() == at.Block() {
+			if instrIndex(d) > instrIndex(at) {
+				return false
+			}
+			// a block inside a cycle may run again
+			for _, s := range at.Block().Succs {
+				if reachable(s)[at.Block()] {
+					return false
+				}
+			}
+			continue
+		}
+		if from[d.Block()] {
+			return false
+		}
+	}
+	return len(defs) > 0
+}
+
 func valueFn(v ssa.Value) *ssa.Function {
 	if in, ok := v.(ssa.Instruction); ok {
 		return in.Parent()
@@ -181,6 +281,18 @@ func valueFn(v ssa.Value) *ssa.Function {
 func (c *Ctx) listDefs(id interface{}) []ssa.Instruction {
 	var out []ssa.Instruction
 	switch x := id.(type) {
+	case fieldCell:
+		if refs := x.Alloc.Referrers(); refs != nil {
+			for _, r := range *refs {
+				if fa, ok := r.(*ssa.FieldAddr); ok && fa.Field == x.Field {
+					for _, rr := range *fa.Referrers() {
+						if st, ok := rr.(*ssa.Store); ok && st.Addr == ssa.Value(fa) {
+							out = append(out, st)
+						}
+					}
+				}
+			}
+		}
 	case *ssa.Alloc:
 		for _, st := range c.cellStores(x) {
 			out = append(out, st)
